@@ -218,7 +218,7 @@ void IniFile::write(const String& fname)
 				{}
 				j--;
 				if(j>0)
-					while(_lines[j][0]=='\0') j--;
+					while(j>=0 && _lines[j][0]=='\0') j--;
 				j++;
 				//_lines.insert(j, "");
 				break;
@@ -228,7 +228,7 @@ void IniFile::write(const String& fname)
 		{
 			j=_lines.length()-1;
 			if(j>0)
-				while(_lines[j][0]=='\0') j--;
+				while(j>=0 && _lines[j][0]=='\0') j--;
 			j++;
 			if (_lines.length() > 0)
 			_lines.insert(j++, "");
@@ -251,7 +251,10 @@ void IniFile::write(const String& fname)
 	{
 		TextFile file ((fname.ok())? fname: _filename, File::WRITE);
 		if(!file)
+		{
+			_lines = oldlines; // the lines added for this write must not stay when it fails
 			return;
+		}
 		foreach(String& line, _lines)
 		{
 			file << line << '\n';
